@@ -583,6 +583,20 @@ pub fn run_session<'a, P: SimPrefix, T: WVal>(ctx: &mut Ctx, mut w: Option<&mut 
                 }
                 let (v, vdom) = s.take(*i as usize % n);
                 let vp = v.prefix().raw().key();
+                // the read-only twin of this navigation step, from the same position
+                let cap = s.cap;
+                let twin = ctx.obs("C13", "read-only navigation", || {
+                    let ro = (&v).view();
+                    let t = match act {
+                        MAct::Left(_) => ro.left(),
+                        MAct::Right(_) => ro.right(),
+                        MAct::Find(_, q) => ro.find(P::make(*q)),
+                        MAct::FindExact(_, q) => ro.find_exact(&P::make(*q)),
+                        MAct::FindLpm(_, q) => ro.find_lpm(&P::make(*q)),
+                        _ => unreachable!(),
+                    };
+                    t.map(|x| (x.prefix().raw().key(), x.value().map(|y| y.snap()), view_ents(&x, cap)))
+                })?;
                 let (r, name) = match act {
                     MAct::Left(_) => (ctx.obs("*", "left", || v.left())?, "left"),
                     MAct::Right(_) => (ctx.obs("*", "right", || v.right())?, "right"),
@@ -591,6 +605,15 @@ pub fn run_session<'a, P: SimPrefix, T: WVal>(ctx: &mut Ctx, mut w: Option<&mut 
                     MAct::FindLpm(_, q) => (ctx.obs("*", "find_lpm", || v.find_lpm(&P::make(*q)))?, "find_lpm"),
                     _ => unreachable!(),
                 };
+                let got = ctx.obs("C13", "navigation result", || match &r {
+                    Ok(nv) => Some((nv.prefix().raw().key(), nv.value().map(|y| y.snap()), view_ents(&nv.view(), cap))),
+                    Err(_) => None,
+                })?;
+                chk!(ctx, "C13", got == twin, format!("mirror:nav:{name}"), "{name}() on mutable view {vp} gives (prefix, value, entries) = {:?}, the same step on its read-only view gives {:?}", got, twin);
+                if let Err(o) = &r {
+                    let op = o.prefix().raw().key();
+                    chk!(ctx, "C13", op == vp, format!("mirror:nav:{name}:err-view"), "{name}() failed on mutable view {vp} but handed back a view at {op}");
+                }
                 match r {
                     Ok(nv) => {
                         let np = nv.prefix().raw().key();
